@@ -1,4 +1,4 @@
-import Snel.Lemmas.ShardVisible
+import Snel.Lemmas.ShardCount
 /-!
 # C03 — reads see every applied write at every stage of its flush
 
@@ -51,6 +51,35 @@ theorem C03_selection_no_duplicates (s : Shard) : (visibleKeys s).Nodup := by
   simp only [visibleKeys]
   exact nodup_eraseDups _
 
+/-- COUNT, exact accounting: after ANY crash-free interleaving, the number of rows a scan
+produces equals the number of stored events plus the rows of the jobs that are between "segment
+files written" and "passive buffer released" (the double-visibility window). -/
+theorem C03_count_accounting (cap k : Nat) (ops : List Op) (h : CrashFree ops) :
+    count (runOps (Shard.init cap k) ops)
+      = (storedEvents ops).length + extra (runOps (Shard.init cap k) ops).jobs := by
+  have hinit : Counted (Shard.init cap k) 0 := by
+    simp [Counted, total, Shard.init, sumLen, extra]
+  obtain ⟨h4, hc⟩ := runOps_counted ops 0 (init_inv cap k) (init_inv4 cap k) hinit h
+  rw [count_eq h4]
+  unfold Counted total at hc
+  omega
+
+/-- PARTIAL exactness of COUNT: whenever no flush job is inside that window — in particular
+whenever the flush worker is idle, parked before writing, or past the release of the passive
+buffer — COUNT equals the number of applied events, for every crash-free history. The window
+itself is the refuted part (`C03_count_exact_fails`). -/
+theorem C03_count_exact_partial (cap k : Nat) (ops : List Op) (h : CrashFree ops)
+    (hw : ∀ j ∈ (runOps (Shard.init cap k) ops).jobs, inWindow j = false) :
+    count (runOps (Shard.init cap k) ops) = (storedEvents ops).length := by
+  rw [C03_count_accounting cap k ops h]
+  have : extra (runOps (Shard.init cap k) ops).jobs = 0 := by
+    unfold extra
+    have : (runOps (Shard.init cap k) ops).jobs.filter inWindow = [] := by
+      rw [List.filter_eq_nil_iff]
+      intro j hj; simp [hw j hj]
+    rw [this]; rfl
+  omega
+
 /-- COUNT is NOT deduplicated: the full statement "COUNT equals the number of applied events at
 every moment" is false of the code as modelled. Witness (capacity 2): two stores rotate the
 buffer; after the flush worker has written the segment files and before it releases the passive
@@ -63,6 +92,10 @@ theorem C03_count_exact_fails :
   intro o ho
   simp at ho
   rcases ho with rfl | rfl | rfl <;> rfl
+
+/-- Non-vacuity of `C03_count_exact_partial`: after draining, no job is in the window. -/
+example : ∀ j ∈ (runOps (Shard.init 2 2) [.store ⟨1,0,0⟩, .store ⟨2,0,0⟩, .store ⟨3,0,0⟩, .drain]).jobs,
+    inWindow j = false := by decide
 
 /-- Non-vacuity: a concrete interleaving with two overlapping rotations, stepped part-way. -/
 example : CrashFree [.store ⟨1,0,0⟩, .store ⟨2,0,0⟩, .flushStep, .store ⟨3,0,0⟩, .store ⟨4,0,0⟩,
